@@ -39,7 +39,10 @@ one() {
 many() {
   local patch=$1; shift
   prep
-  if ! (cd $S/repo && patch -p1 -s --no-backup-if-mismatch < "$patch"); then echo "SELFTEST $(basename $patch): PATCH-FAILED"; return 3; fi
+  # "-" = no patch: the unchanged tree (used for silence runs at other seeds / the thorough tier)
+  if [ "$(basename $patch)" != "-" ]; then
+    if ! (cd $S/repo && patch -p1 -s --no-backup-if-mismatch < "$patch"); then echo "SELFTEST $(basename $patch): PATCH-FAILED"; return 3; fi
+  fi
   if ! (cd $S/harness && cargo build --offline >$S/build.log 2>&1); then tail -20 $S/build.log; echo "SELFTEST $(basename $patch): BUILD-FAILED"; return 3; fi
   for prop in "$@"; do
     local t0=$(date +%s)
@@ -56,7 +59,7 @@ many() {
 }
 case "${1:-}" in
   one) one "$(realpath $2)" $3 ${4:-quick};;
-  many) p="$(realpath $2)"; shift 2; many "$p" "$@";;
+  many) if [ "$2" = "-" ]; then p="-"; else p="$(realpath $2)"; fi; shift 2; many "$p" "$@";;
   all)
     for p in /verif/mutants/C*-*.patch; do
       [ -f "$p" ] || continue
